@@ -45,8 +45,42 @@ func c07Run(c *core.Ctx) *core.Result {
 	o := tree.DefaultOpt()
 	o.SpecLinks = true
 	o.Big = R.P(1, 5)
-	src := tree.Gen(R, o)
 	eo := editOpt{Owners: o.Owners, Types: "fdlpcb", Xattrs: true}
+	// a fifth of the sessions run the receiver as an ordinary user (effective
+	// uid/gid of the process switched for the session): trees it can own
+	unpriv := R.P(1, 5)
+	if unpriv {
+		o.Owners = []uint32{1234}
+		o.Types = "fdlp"
+		o.SpecLinks = false
+		o.SecXattrs = false
+		eo = editOpt{Owners: []uint32{1234}, Types: "fdlp", Xattrs: true}
+	}
+	src := tree.Gen(R, o)
+	if unpriv {
+		for i := range src.Entries {
+			if e := &src.Entries[i]; e.Type == tree.Dir {
+				e.Perm |= 0700
+			}
+		}
+		if R.P(1, 2) && src.Get("0ro") == nil {
+			// a read-only file with content and further names: its writer has
+			// to make it writable while the links stamp the mode on the inode
+			ro := tree.Entry{Path: "0ro", Type: tree.File, Perm: core.Pick(R, []uint32{0400, 0444, 04555}), UID: 1234, GID: 1234, Mtime: 1e18,
+				Data: R.Bytes(core.Pick(R, []int{1, 4096, 40000}))}
+			src.Put(ro)
+			for i, n := 0, R.Range(0, 5); i < n; i++ {
+				m := ro.Clone()
+				m.Path = fmt.Sprintf("0ro.l%d", i)
+				m.LinkTo = ro.Path
+				if src.Get(m.Path) == nil {
+					src.Put(m)
+				}
+			}
+			src.Sort()
+			src.Recanon()
+		}
+	}
 	var prior *tree.Tree
 	pk := core.Pick(R, []string{"empty", "mutated", "mutated", "unrelated"})
 	switch pk {
@@ -58,8 +92,19 @@ func c07Run(c *core.Ctx) *core.Result {
 	case "unrelated":
 		prior = tree.Gen(R, o)
 	}
+	if unpriv {
+		for i := range prior.Entries {
+			if e := &prior.Entries[i]; e.Type == tree.Dir {
+				e.Perm |= 0700
+			}
+		}
+	}
 	dest := filepath.Join(c.Dir, "dest")
 	os.Mkdir(dest, 0755)
+	if unpriv {
+		os.Chmod(c.Dir, 0755)
+		os.Lchown(dest, 1234, 1234)
+	}
 	if err := tree.Materialise(dest, prior); err != nil {
 		r.Inconclusive = "materialise: " + err.Error()
 		return r
@@ -127,8 +172,19 @@ func c07Run(c *core.Ctx) *core.Result {
 		ropt.NotifyHashed = nrec.fn
 		ropt.ContentHasher = newHasher().fn
 	}
-	res := runSync(syncOpt{Cfg: cfg, Dest: dest, Recv: ropt,
-		SendFn: func(ctx context.Context, s fsutil.Stream) error { return rs.run(ctx, s) }})
+	so := syncOpt{Cfg: cfg, Dest: dest, Recv: ropt,
+		SendFn: func(ctx context.Context, s fsutil.Stream) error { return rs.run(ctx, s) }}
+	var res *syncRes
+	if unpriv {
+		desc += " unprivileged-receiver"
+		r.Count("sessions_with_unprivileged_receiver", 1)
+		if err := asUser(1234, 1234, func() { res = runSync(so) }); err != nil {
+			r.Inconclusive = "cannot switch uid: " + err.Error()
+			return r
+		}
+	} else {
+		res = runSync(so)
+	}
 	if checkHang(r, res, desc) {
 		return r
 	}
